@@ -429,3 +429,396 @@ Proof.
   split; [exact Hc|]. split; [exact I1|].
   intros j Hj. rewrite skipn_nth by lia. apply wf_prefix_cont. apply I2. exact Hj.
 Qed.
+
+(* ------------------------------------------------------------------------------------------------ *)
+(* The specification on its own: shape, scalar values, injectivity                                   *)
+(* ------------------------------------------------------------------------------------------------ *)
+
+Lemma wf_shape s n r : wf_prefix s = Some (n, r) ->
+  (exists b1 t, s = b1 :: t /\ n = 1%nat /\ b1 < 128 /\ r = b1) \/
+  (exists b1 b2 t, s = b1 :: b2 :: t /\ n = 2%nat /\ 194 <= b1 <= 223 /\ 128 <= b2 <= 191 /\
+     r = (b1 - 192) * 64 + (b2 - 128)) \/
+  (exists b1 b2 b3 t, s = b1 :: b2 :: b3 :: t /\ n = 3%nat /\ 224 <= b1 <= 239 /\
+     lo2 b1 <= b2 <= hi2 b1 /\ 128 <= b3 <= 191 /\
+     r = (b1 - 224) * 4096 + (b2 - 128) * 64 + (b3 - 128)) \/
+  (exists b1 b2 b3 b4 t, s = b1 :: b2 :: b3 :: b4 :: t /\ n = 4%nat /\ 240 <= b1 <= 244 /\
+     lo2 b1 <= b2 <= hi2 b1 /\ 128 <= b3 <= 191 /\ 128 <= b4 <= 191 /\
+     r = (b1 - 240) * 262144 + (b2 - 128) * 4096 + (b3 - 128) * 64 + (b4 - 128)).
+Proof.
+  intros H. destruct s as [|b1 t]; [discriminate|].
+  unfold wf_prefix, is_cont, in_range in H.
+  destruct (b1 <? 128) eqn:E1.
+  { inversion H; subst. left. exists r, t. repeat split. lia. }
+  destruct ((194 <=? b1) && (b1 <=? 223)) eqn:E2.
+  { destruct t as [|b2 t2]; [discriminate|].
+    destruct ((128 <=? b2) && (b2 <=? 191)) eqn:E3; [|discriminate].
+    inversion H; subst. right; left. exists b1, b2, t2. repeat split; lia. }
+  destruct ((224 <=? b1) && (b1 <=? 239)) eqn:E3.
+  { destruct t as [|b2 [|b3 t3]]; [discriminate|discriminate|].
+    destruct ((lo2 b1 <=? b2) && (b2 <=? hi2 b1) && ((128 <=? b3) && (b3 <=? 191))) eqn:E4; [|discriminate].
+    inversion H; subst. right; right; left. exists b1, b2, b3, t3. repeat split; lia. }
+  destruct ((240 <=? b1) && (b1 <=? 244)) eqn:E4; [|discriminate].
+  destruct t as [|b2 [|b3 [|b4 t4]]]; [discriminate|discriminate|discriminate|].
+  destruct ((lo2 b1 <=? b2) && (b2 <=? hi2 b1) && ((128 <=? b3) && (b3 <=? 191)) &&
+            ((128 <=? b4) && (b4 <=? 191))) eqn:E5; [|discriminate].
+  inversion H; subst. right; right; right. exists b1, b2, b3, b4, t4. repeat split; lia.
+Qed.
+
+Lemma lo2_cases b : (b = 224 /\ lo2 b = 160) \/ (b = 240 /\ lo2 b = 144) \/
+                    (b <> 224 /\ b <> 240 /\ lo2 b = 128).
+Proof. unfold lo2. destruct (b =? 224) eqn:E1; [lia|]. destruct (b =? 240) eqn:E2; lia. Qed.
+
+Lemma hi2_cases b : (b = 237 /\ hi2 b = 159) \/ (b = 244 /\ hi2 b = 143) \/
+                    (b <> 237 /\ b <> 244 /\ hi2 b = 191).
+Proof. unfold hi2. destruct (b =? 237) eqn:E1; [lia|]. destruct (b =? 244) eqn:E2; lia. Qed.
+
+Lemma utf8_len_cases r :
+  (r < 128 /\ utf8_len r = 1%nat) \/ (128 <= r < 2048 /\ utf8_len r = 2%nat) \/
+  (2048 <= r < 65536 /\ utf8_len r = 3%nat) \/ (65536 <= r /\ utf8_len r = 4%nat).
+Proof.
+  unfold utf8_len. destruct (r <? 128) eqn:E1; [lia|]. destruct (r <? 2048) eqn:E2; [lia|].
+  destruct (r <? 65536) eqn:E3; lia.
+Qed.
+
+Lemma C13_wf_scalar_proof : stmt_C13_wf_scalar.
+Proof.
+  intros s n r _ H. unfold is_scalar. pose proof (utf8_len_cases r) as L.
+  destruct (wf_shape s n r H) as [(b1 & t & -> & -> & Hb & ->)
+    |[(b1 & b2 & t & -> & -> & H1 & H2 & ->)
+    |[(b1 & b2 & b3 & t & -> & -> & H1 & H2 & H3 & ->)
+    |(b1 & b2 & b3 & b4 & t & -> & -> & H1 & H2 & H3 & H4 & ->)]]]; cbn [length].
+  - lia.
+  - lia.
+  - pose proof (lo2_cases b1). pose proof (hi2_cases b1). lia.
+  - pose proof (lo2_cases b1). pose proof (hi2_cases b1). lia.
+Qed.
+
+Lemma lo2_ge b : 128 <= lo2 b.
+Proof. destruct (lo2_cases b) as [H|[H|H]]; lia. Qed.
+
+Lemma hi2_le b : hi2 b <= 191.
+Proof. destruct (hi2_cases b) as [H|[H|H]]; lia. Qed.
+
+Lemma wf_inj s s' n r : wf_prefix s = Some (n, r) -> wf_prefix s' = Some (n, r) ->
+  firstn n s = firstn n s'.
+Proof.
+  intros H H'.
+  destruct (wf_shape s n r H) as [(b1 & t & -> & -> & Hb & ->)
+    |[(b1 & b2 & t & -> & -> & H1 & H2 & ->)
+    |[(b1 & b2 & b3 & t & -> & -> & H1 & H2 & H3 & ->)
+    |(b1 & b2 & b3 & b4 & t & -> & -> & H1 & H2 & H3 & H4 & ->)]]];
+  destruct (wf_shape s' _ _ H') as [(c1 & u & -> & Hn & Hc & Hr)
+    |[(c1 & c2 & u & -> & Hn & G1 & G2 & Hr)
+    |[(c1 & c2 & c3 & u & -> & Hn & G1 & G2 & G3 & Hr)
+    |(c1 & c2 & c3 & c4 & u & -> & Hn & G1 & G2 & G3 & G4 & Hr)]]]; try discriminate Hn;
+  cbn [firstn]; clear H H' Hn.
+  - subst. reflexivity.
+  - assert (b1 = c1) by lia. assert (b2 = c2) by lia. subst. reflexivity.
+  - pose proof (lo2_ge b1). pose proof (hi2_le b1). pose proof (lo2_ge c1). pose proof (hi2_le c1).
+    assert (H2' : 128 <= b2 <= 191) by lia. assert (G2' : 128 <= c2 <= 191) by lia.
+    clear H2 G2.
+    assert (b1 = c1) by lia. assert (b2 = c2) by lia. assert (b3 = c3) by lia. subst. reflexivity.
+  - pose proof (lo2_ge b1). pose proof (hi2_le b1). pose proof (lo2_ge c1). pose proof (hi2_le c1).
+    assert (H2' : 128 <= b2 <= 191) by lia. assert (G2' : 128 <= c2 <= 191) by lia.
+    clear H2 G2.
+    assert (b1 = c1) by lia. assert (b2 = c2) by lia. assert (b3 = c3) by lia.
+    assert (b4 = c4) by lia. subst. reflexivity.
+Qed.
+
+(* ------------------------------------------------------------------------------------------------ *)
+(* The encoder                                                                                       *)
+(* ------------------------------------------------------------------------------------------------ *)
+
+Definition octv (r k c : N) : N := (N.lor (N.land (N.shiftr r k) 63) c) mod 256.
+
+Lemma encode_rune_unfold r :
+  encode_rune r =
+    if r <? 128 then ([r], true)
+    else if (1114112 <=? r) || (N.land r 4294965248 =? 55296) then ([239; 191; 189], false)
+    else if r <? 2048 then ([octv r 6 192; octv r 0 128], true)
+    else if r <? 65536 then ([octv r 12 224; octv r 6 128; octv r 0 128], true)
+    else ([octv r 18 240; octv r 12 128; octv r 6 128; octv r 0 128], true).
+Proof.
+  unfold encode_rune, non_ascii_rune_length.
+  destruct (r <? 128); [reflexivity|].
+  destruct ((1114112 <=? r) || (N.land r 4294965248 =? 55296)); [reflexivity|].
+  destruct (r <? 2048); [reflexivity|].
+  destruct (r <? 65536); reflexivity.
+Qed.
+
+Lemma land_high r : N.land r 4294965248 = ((r / 2048) mod 2097152) * 2048.
+Proof.
+  change 4294965248 with (N.shiftl (N.ones 21) 11).
+  change 2048 with (2 ^ 11). change 2097152 with (2 ^ 21).
+  rewrite <- N.shiftr_div_pow2, <- N.land_ones, <- N.shiftl_mul_pow2.
+  apply N.bits_inj. intros n. rewrite N.land_spec.
+  destruct (N.lt_ge_cases n 11) as [Hn|Hn].
+  - rewrite !N.shiftl_spec_low by exact Hn. apply andb_false_r.
+  - rewrite !N.shiftl_spec_high' by exact Hn. rewrite N.land_spec, N.shiftr_spec'.
+    replace (n - 11 + 11) with n by lia. reflexivity.
+Qed.
+
+Definition lor_chk (y : N) : bool :=
+  (N.lor y 128 =? 128 + y) && (N.lor y 192 =? 192 + y) &&
+  (if y <? 32 then N.lor y 224 =? 224 + y else true) &&
+  (if y <? 16 then N.lor y 240 =? 240 + y else true).
+
+Lemma lor_ok y : y < 64 -> lor_chk y = true.
+Proof.
+  intros Hy. apply (range_check_sound lor_chk 6 0); [vm_compute; reflexivity|].
+  change (2 ^ N.of_nat 6) with 64. lia.
+Qed.
+
+Lemma octv_low r k : N.land (N.shiftr r k) 63 = (r / 2 ^ k) mod 64.
+Proof. rewrite N.shiftr_div_pow2. change 63 with (N.ones 6). rewrite N.land_ones. reflexivity. Qed.
+
+Lemma octv_128 r k : octv r k 128 = 128 + (r / 2 ^ k) mod 64.
+Proof.
+  unfold octv. rewrite octv_low.
+  assert (Hy : (r / 2 ^ k) mod 64 < 64) by (apply N.mod_lt; lia).
+  pose proof (lor_ok _ Hy) as H. unfold lor_chk in H.
+  apply andb_true_iff in H. destruct H as [H _]. apply andb_true_iff in H. destruct H as [H _].
+  apply andb_true_iff in H. destruct H as [H _]. apply N.eqb_eq in H. rewrite H.
+  apply N.mod_small. lia.
+Qed.
+
+Lemma octv_192 r k : r / 2 ^ k < 64 -> octv r k 192 = 192 + r / 2 ^ k.
+Proof.
+  intros Hy. unfold octv. rewrite octv_low, (N.mod_small _ 64) by exact Hy.
+  pose proof (lor_ok _ Hy) as H. unfold lor_chk in H.
+  apply andb_true_iff in H. destruct H as [H _]. apply andb_true_iff in H. destruct H as [H _].
+  apply andb_true_iff in H. destruct H as [_ H]. apply N.eqb_eq in H. rewrite H.
+  apply N.mod_small. lia.
+Qed.
+
+Lemma octv_224 r k : r / 2 ^ k < 32 -> octv r k 224 = 224 + r / 2 ^ k.
+Proof.
+  intros Hy. assert (Hy' : r / 2 ^ k < 64) by lia.
+  unfold octv. rewrite octv_low, (N.mod_small _ 64) by exact Hy'.
+  pose proof (lor_ok _ Hy') as H. unfold lor_chk in H.
+  apply andb_true_iff in H. destruct H as [H _]. apply andb_true_iff in H. destruct H as [_ H].
+  assert (E : (r / 2 ^ k <? 32) = true) by lia. rewrite E in H.
+  apply N.eqb_eq in H. rewrite H. apply N.mod_small. lia.
+Qed.
+
+Lemma octv_240 r k : r / 2 ^ k < 16 -> octv r k 240 = 240 + r / 2 ^ k.
+Proof.
+  intros Hy. assert (Hy' : r / 2 ^ k < 64) by lia.
+  unfold octv. rewrite octv_low, (N.mod_small _ 64) by exact Hy'.
+  pose proof (lor_ok _ Hy') as H. unfold lor_chk in H.
+  apply andb_true_iff in H. destruct H as [_ H].
+  assert (E : (r / 2 ^ k <? 16) = true) by lia. rewrite E in H.
+  apply N.eqb_eq in H. rewrite H. apply N.mod_small. lia.
+Qed.
+
+Lemma C13_encode_nonscalar_proof : stmt_C13_encode_nonscalar.
+Proof.
+  intros r H. unfold is_scalar in H. rewrite encode_rune_unfold.
+  assert (E1 : (r <? 128) = false) by lia. rewrite E1.
+  destruct (1114112 <=? r) eqn:E2; [reflexivity|]. cbn [orb].
+  rewrite land_high.
+  pose proof (N.div_mod' r 2048) as D. pose proof (N.mod_lt r 2048 ltac:(lia)) as M.
+  assert (Hq : r / 2048 = 27) by lia.
+  rewrite Hq. reflexivity.
+Qed.
+
+(* the four forms of the encoding of a scalar value *)
+Lemma enc_not_repl r : is_scalar r = true ->
+  ((1114112 <=? r) || (N.land r 4294965248 =? 55296)) = false.
+Proof.
+  intros H. unfold is_scalar in H. rewrite land_high.
+  pose proof (N.div_mod' r 2048) as D. pose proof (N.mod_lt r 2048 ltac:(lia)) as M.
+  assert (Hq : r / 2048 < 2097152) by lia.
+  rewrite (N.mod_small _ _ Hq).
+  assert (r / 2048 <> 27) by lia. lia.
+Qed.
+
+Lemma enc1 r : r < 128 -> encode_rune r = ([r], true).
+Proof. intros H. rewrite encode_rune_unfold. assert (E : (r <? 128) = true) by lia. rewrite E. reflexivity. Qed.
+
+Lemma enc2 r : 128 <= r < 2048 ->
+  encode_rune r = ([192 + r / 64; 128 + r mod 64], true).
+Proof.
+  intros H. rewrite encode_rune_unfold.
+  assert (E1 : (r <? 128) = false) by lia. rewrite E1.
+  rewrite enc_not_repl by (unfold is_scalar; lia).
+  assert (E2 : (r <? 2048) = true) by lia. rewrite E2.
+  pose proof (N.div_mod' r 64) as D. pose proof (N.mod_lt r 64 ltac:(lia)) as M.
+  rewrite octv_128, octv_192 by (change (2 ^ 6) with 64; lia).
+  change (2 ^ 6) with 64. change (2 ^ 0) with 1. rewrite N.div_1_r. reflexivity.
+Qed.
+
+Lemma enc3 r : 2048 <= r < 65536 -> is_scalar r = true ->
+  encode_rune r = ([224 + r / 4096; 128 + (r / 64) mod 64; 128 + r mod 64], true).
+Proof.
+  intros H Hs. rewrite encode_rune_unfold.
+  assert (E1 : (r <? 128) = false) by lia. rewrite E1.
+  rewrite enc_not_repl by exact Hs.
+  assert (E2 : (r <? 2048) = false) by lia. rewrite E2.
+  assert (E3 : (r <? 65536) = true) by lia. rewrite E3.
+  pose proof (N.div_mod' r 4096) as D. pose proof (N.mod_lt r 4096 ltac:(lia)) as M.
+  rewrite !octv_128, octv_224 by (change (2 ^ 12) with 4096; lia).
+  change (2 ^ 12) with 4096. change (2 ^ 6) with 64. change (2 ^ 0) with 1. rewrite N.div_1_r.
+  reflexivity.
+Qed.
+
+Lemma enc4 r : 65536 <= r < 1114112 ->
+  encode_rune r =
+    ([240 + r / 262144; 128 + (r / 4096) mod 64; 128 + (r / 64) mod 64; 128 + r mod 64], true).
+Proof.
+  intros H. rewrite encode_rune_unfold.
+  assert (E1 : (r <? 128) = false) by lia. rewrite E1.
+  rewrite enc_not_repl by (unfold is_scalar; lia).
+  assert (E2 : (r <? 2048) = false) by lia. rewrite E2.
+  assert (E3 : (r <? 65536) = false) by lia. rewrite E3.
+  pose proof (N.div_mod' r 262144) as D. pose proof (N.mod_lt r 262144 ltac:(lia)) as M.
+  rewrite !octv_128, octv_240 by (change (2 ^ 18) with 262144; lia).
+  change (2 ^ 18) with 262144. change (2 ^ 12) with 4096. change (2 ^ 6) with 64.
+  change (2 ^ 0) with 1. rewrite N.div_1_r. reflexivity.
+Qed.
+
+(* wf_prefix, read from right to left *)
+Lemma wf1 b1 t : b1 < 128 -> wf_prefix (b1 :: t) = Some (1%nat, b1).
+Proof. intros H. unfold wf_prefix. assert (E : (b1 <? 128) = true) by lia. rewrite E. reflexivity. Qed.
+
+Lemma wf2 b1 b2 t : 194 <= b1 <= 223 -> 128 <= b2 <= 191 ->
+  wf_prefix (b1 :: b2 :: t) = Some (2%nat, (b1 - 192) * 64 + (b2 - 128)).
+Proof.
+  intros H1 H2. unfold wf_prefix, is_cont, in_range.
+  assert (E1 : (b1 <? 128) = false) by lia. rewrite E1.
+  assert (E2 : ((194 <=? b1) && (b1 <=? 223)) = true) by lia. rewrite E2.
+  assert (E3 : ((128 <=? b2) && (b2 <=? 191)) = true) by lia. rewrite E3. reflexivity.
+Qed.
+
+Lemma wf3 b1 b2 b3 t : 224 <= b1 <= 239 -> lo2 b1 <= b2 <= hi2 b1 -> 128 <= b3 <= 191 ->
+  wf_prefix (b1 :: b2 :: b3 :: t) =
+    Some (3%nat, (b1 - 224) * 4096 + (b2 - 128) * 64 + (b3 - 128)).
+Proof.
+  intros H1 H2 H3. unfold wf_prefix, is_cont, in_range.
+  assert (E1 : (b1 <? 128) = false) by lia. rewrite E1.
+  assert (E2 : ((194 <=? b1) && (b1 <=? 223)) = false) by lia. rewrite E2.
+  assert (E3 : ((224 <=? b1) && (b1 <=? 239)) = true) by lia. rewrite E3.
+  assert (E4 : ((lo2 b1 <=? b2) && (b2 <=? hi2 b1)) = true) by lia. rewrite E4.
+  assert (E5 : ((128 <=? b3) && (b3 <=? 191)) = true) by lia. rewrite E5. reflexivity.
+Qed.
+
+Lemma wf4 b1 b2 b3 b4 t : 240 <= b1 <= 244 -> lo2 b1 <= b2 <= hi2 b1 ->
+  128 <= b3 <= 191 -> 128 <= b4 <= 191 ->
+  wf_prefix (b1 :: b2 :: b3 :: b4 :: t) =
+    Some (4%nat, (b1 - 240) * 262144 + (b2 - 128) * 4096 + (b3 - 128) * 64 + (b4 - 128)).
+Proof.
+  intros H1 H2 H3 H4. unfold wf_prefix, is_cont, in_range.
+  assert (E1 : (b1 <? 128) = false) by lia. rewrite E1.
+  assert (E2 : ((194 <=? b1) && (b1 <=? 223)) = false) by lia. rewrite E2.
+  assert (E3 : ((224 <=? b1) && (b1 <=? 239)) = false) by lia. rewrite E3.
+  assert (E3' : ((240 <=? b1) && (b1 <=? 244)) = true) by lia. rewrite E3'.
+  assert (E4 : ((lo2 b1 <=? b2) && (b2 <=? hi2 b1)) = true) by lia. rewrite E4.
+  assert (E5 : ((128 <=? b3) && (b3 <=? 191)) = true) by lia. rewrite E5.
+  assert (E6 : ((128 <=? b4) && (b4 <=? 191)) = true) by lia. rewrite E6. reflexivity.
+Qed.
+
+Lemma split3 r : r = 4096 * (r / 4096) + 64 * ((r / 64) mod 64) + r mod 64.
+Proof.
+  pose proof (N.div_mod' r 64) as D1. pose proof (N.div_mod' (r / 64) 64) as D2.
+  rewrite N.div_div in D2 by lia. change (64 * 64) with 4096 in D2. lia.
+Qed.
+
+Lemma split4 r :
+  r = 262144 * (r / 262144) + 4096 * ((r / 4096) mod 64) + 64 * ((r / 64) mod 64) + r mod 64.
+Proof.
+  pose proof (split3 r) as D1. pose proof (N.div_mod' (r / 4096) 64) as D2.
+  rewrite N.div_div in D2 by lia. change (4096 * 64) with 262144 in D2. lia.
+Qed.
+
+Lemma C13_encode_scalar_proof : stmt_C13_encode_scalar.
+Proof.
+  intros r rest Hs. pose proof Hs as Hs'. unfold is_scalar in Hs'.
+  destruct (utf8_len_cases r) as [[L1 L2]|[[L1 L2]|[[L1 L2]|[L1 L2]]]]; rewrite L2.
+  - rewrite (enc1 r L1). cbn [fst snd length app].
+    split; [reflexivity|]. split; [reflexivity|]. split.
+    + constructor; [lia|constructor].
+    + apply wf1. exact L1.
+  - rewrite (enc2 r L1). cbn [fst snd length app].
+    pose proof (N.div_mod' r 64) as D. pose proof (N.mod_lt r 64 ltac:(lia)) as M.
+    set (q := r / 64) in *. set (m := r mod 64) in *.
+    split; [reflexivity|]. split; [reflexivity|]. split.
+    + constructor; [lia|]. constructor; [lia|constructor].
+    + rewrite wf2 by lia. f_equal. f_equal. lia.
+  - rewrite (enc3 r L1 Hs). cbn [fst snd length app].
+    pose proof (split3 r) as D. pose proof (N.mod_lt r 64 ltac:(lia)) as M1.
+    pose proof (N.mod_lt (r / 64) 64 ltac:(lia)) as M2.
+    set (a := r / 4096) in *. set (b := (r / 64) mod 64) in *. set (c := r mod 64) in *.
+    split; [reflexivity|]. split; [reflexivity|]. split.
+    + constructor; [lia|]. constructor; [lia|]. constructor; [lia|constructor].
+    + pose proof (lo2_cases (224 + a)) as Hlo. pose proof (hi2_cases (224 + a)) as Hhi.
+      rewrite wf3 by lia. f_equal. f_equal. lia.
+  - assert (L1' : 65536 <= r < 1114112) by lia.
+    rewrite (enc4 r L1'). cbn [fst snd length app].
+    pose proof (split4 r) as D. pose proof (N.mod_lt r 64 ltac:(lia)) as M1.
+    pose proof (N.mod_lt (r / 64) 64 ltac:(lia)) as M2.
+    pose proof (N.mod_lt (r / 4096) 64 ltac:(lia)) as M3.
+    set (a := r / 262144) in *. set (b := (r / 4096) mod 64) in *.
+    set (c := (r / 64) mod 64) in *. set (d := r mod 64) in *.
+    split; [reflexivity|]. split; [reflexivity|]. split.
+    + constructor; [lia|]. constructor; [lia|]. constructor; [lia|]. constructor; [lia|constructor].
+    + pose proof (lo2_cases (240 + a)) as Hlo. pose proof (hi2_cases (240 + a)) as Hhi.
+      rewrite wf4 by lia. f_equal. f_equal. lia.
+Qed.
+
+Lemma C13_encode_unique_proof : stmt_C13_encode_unique.
+Proof.
+  intros s n r Hok Hwf.
+  destruct (C13_wf_scalar_proof s n r Hok Hwf) as (Hs & Hl & _).
+  destruct (C13_encode_scalar_proof r [] Hs) as (_ & Hlen & _ & Henc).
+  rewrite app_nil_r, Hl in Henc. rewrite Hl in Hlen.
+  rewrite (wf_inj _ _ _ _ Hwf Henc). rewrite <- Hlen. apply firstn_all.
+Qed.
+
+Lemma C13_roundtrip_proof : stmt_C13_roundtrip.
+Proof.
+  intros r rest Hs Hrest.
+  destruct (C13_encode_scalar_proof r rest Hs) as (_ & _ & Hok & Henc).
+  apply C13_decode_wellformed_proof; [|exact Henc].
+  unfold bytes_ok in *. apply Forall_app. split; assumption.
+Qed.
+
+(* ------------------------------------------------------------------------------------------------ *)
+(* count_runes                                                                                       *)
+(* ------------------------------------------------------------------------------------------------ *)
+
+Lemma bytes_ok_skipn k : forall s, bytes_ok s -> bytes_ok (skipn k s).
+Proof.
+  induction k as [|k IH]; intros s H; [exact H|].
+  destruct s as [|b t]; [exact H|]. inversion H; subst. cbn [skipn]. apply IH. assumption.
+Qed.
+
+Lemma count_runes_fuel_total fuel : forall l, bytes_ok l -> (length l <= fuel)%nat ->
+  exists n, count_runes_fuel fuel l = Some n /\ (n <= length l)%nat.
+Proof.
+  induction fuel as [|f IH]; intros l Hok Hlen.
+  - destruct l as [|b t]; [|cbn [length] in Hlen; lia]. exists O. split; [reflexivity|apply Nat.le_refl].
+  - destruct l as [|b t]; [exists O; split; [reflexivity|apply Nat.le_0_l]|].
+    assert (Hne : b :: t <> []) by discriminate.
+    pose proof (C13_progress_proof (b :: t) Hok Hne) as Hp.
+    cbn [count_runes_fuel]. unfold next_rune.
+    set (k := fst (decode_rune (b :: t))) in *.
+    assert (Hl : length (skipn k (b :: t)) = (length (b :: t) - k)%nat) by apply skipn_length.
+    destruct (IH (skipn k (b :: t)) (bytes_ok_skipn k _ Hok)) as (n & Hn & Hle); [lia|].
+    rewrite Hn. exists (S n). split; [reflexivity|lia].
+Qed.
+
+Lemma C13_count_runes_total_proof : stmt_C13_count_runes_total.
+Proof.
+  intros s Hok. unfold count_runes. apply count_runes_fuel_total; [exact Hok|apply Nat.le_refl].
+Qed.
+
+Print Assumptions C13_decode_wellformed_proof.
+Print Assumptions C13_decode_illformed_proof.
+Print Assumptions C13_progress_proof.
+Print Assumptions C13_ascii_proof.
+Print Assumptions C13_wf_scalar_proof.
+Print Assumptions C13_encode_scalar_proof.
+Print Assumptions C13_encode_unique_proof.
+Print Assumptions C13_encode_nonscalar_proof.
+Print Assumptions C13_roundtrip_proof.
+Print Assumptions C13_count_runes_total_proof.
